@@ -56,11 +56,33 @@ class VirtualExecutor:
     _shutdown = False
     _shutdown_thread = False
 
-    def __init__(self, world):
+    def __init__(self, world, capacity=None):
         self.world = world
+        self.capacity = capacity      # number of workers (None: always a free one); further jobs wait in the queue
+        self.queue = []
+        self.mine = []                # gates of the jobs this pool is running
+
+    def busy(self):
+        self.mine = [g for g in self.mine if g.alive()]
+        return len(self.mine)
 
     def submit(self, fn, *a, **kw):
         cf = concurrent.futures.Future()
+        if self.capacity is not None and self.busy() >= self.capacity:
+            # a saturated pool: the job waits until a worker is free (World.release), unless its future is cancelled first
+            import contextvars
+            self.queue.append((cf, fn, a, kw, contextvars.copy_context()))   # (the harness finds its run through the context)
+            return cf
+        return self._run(cf, fn, a, kw)
+
+    def worker_freed(self):
+        while self.queue and (self.capacity is None or self.busy() < self.capacity):
+            cf, fn, a, kw, ctx = self.queue.pop(0)
+            if not cf.set_running_or_notify_cancel():
+                continue              # withdrawn while it was waiting (what ThreadPoolExecutor's workers do)
+            ctx.run(self._run, cf, fn, a, kw)
+
+    def _run(self, cf, fn, a, kw):
         w = self.world
         w.pending_submit = cf
         try:
@@ -80,6 +102,7 @@ class VirtualExecutor:
             return cf
         g.cfut, g.outcome = cf, res
         w.gates.append(g)
+        self.mine.append(g)
         w.obs.append(['gate', g.key])
         return cf
 
@@ -213,8 +236,9 @@ class World:
         # virtual pools
         self._saved_pools = (threads_pool_registry._pool_executor, process_pool_registry._pool_executor,
                              process_pool_registry._process_manager)
-        threads_pool_registry._pool_executor = VirtualExecutor(self)
-        process_pool_registry._pool_executor = VirtualExecutor(self)
+        threads_pool_registry._pool_executor = VirtualExecutor(self, spec.get('pool_capacity'))
+        process_pool_registry._pool_executor = VirtualExecutor(self, spec.get('pool_capacity'))
+        self.executors = [threads_pool_registry._pool_executor, process_pool_registry._pool_executor]
         process_pool_registry._process_manager = object()
         self._install_topo_recorder()
 
@@ -382,6 +406,8 @@ class World:
                 g.cfut.set_result(g.outcome[1])
             else:
                 g.cfut.set_exception(g.outcome[1])
+            for ex in getattr(self, 'executors', []):
+                ex.worker_freed()
         self.loop.run_plumbing()
 
     def close(self):
@@ -492,6 +518,43 @@ class EnumPolicy(Policy):
         return opts[min(j, len(opts) - 1)]
 
 
+class HoldPolicy(Policy):
+    """one delayed node: run to quiescence and take the first pending external that does not belong to node `hold`, until
+    `after` decisions have been taken; from then on a pending external of `hold` is taken as soon as there is one.  (Every
+    window "X happens while Y is still outstanding" with a single delayed node is some (hold, after).)"""
+
+    def __init__(self, hold, after):
+        super().__init__()
+        self.hold, self.after, self.k = hold, after, 0
+
+    def choose(self, world, nhandles, ready, gates, timers):
+        if ready:
+            return ('step',)
+        opts = options_at_quiescence(gates, timers)
+        if not opts:
+            return ('stop',)
+        mine = [o for o in opts if o[0] == 'gate' and o[1][1] == self.hold]
+        other = [o for o in opts if not (o[0] == 'gate' and o[1][1] == self.hold)]
+        self.k += 1
+        if self.k > self.after:
+            return (mine or other)[0]
+        return (other or mine)[0]
+
+
+def hold_schedules(spec, limit=400, **kw):
+    """the one-delayed-node schedules of a program: every node × every release point of the undelayed run"""
+    base = EnumPolicy([])
+    tr0 = run_program(spec, base, **kw)
+    out = []
+    n_dec = len(base.widths)
+    for h in range(1, len(spec['nodes'])):
+        for after in range(1, n_dec + 1):
+            if len(out) >= limit:
+                return out
+            out.append(run_program(spec, HoldPolicy(h, after), **kw))
+    return out
+
+
 def enumerate_quiescent(spec, limit=40, **kw):
     """all quiescent-point schedules of a program (depth-first), at most `limit` of them"""
     out, stack = [], [[]]
@@ -592,6 +655,9 @@ def run_program(spec, policy, n_runs=1, inputs=None, drain=True, world=None, kee
                     done_seen.add(t.idx)
                 after.append({'k': 'step', 't': tk.local, 'rid': tk.rid, 'obs': w.take_obs(),
                               'done': [[t.local, _status(t), t.rid] for t in newly]})
+            rest = w.take_obs()
+            if rest:
+                after.append({'k': 'rest', 'obs': rest, 'done': []})
             leftovers = [[t.rid, t.local] for t in loop.tasks if not t.done() and t.idx >= first_task]
         res = {
             'graph': w.graph, 'spec': spec, 'events': events, 'after': after, 'leftover_tasks': leftovers,
